@@ -33,6 +33,13 @@ def gen(rng, kind):
                pts=[[dy(rng) for _ in range(nv)] for _ in range(n)],
                w={"dyn_loss": wspec(ekeys), **{t: wspec(ukeys) for t in OTHER[kind]}},
                obs={k: (dict(inputs=[[dy(rng) for _ in range(nv)] for _ in range(n)], vals=[float(rng.randint(-2, 2)) for _ in range(n)]) if rng.random() < 0.6 else None) for k in ukeys})
+    # some unknowns have a second output channel and are observed on a channel of their own (obs_slice_dict)
+    cfg["upolys2"] = {k: (prand(rng, nv, 2, 2) or {(0,) * nv: 2}) if rng.random() < 0.5 else None for k in ukeys}
+    cfg["oslice"] = {k: (rng.choice([[0, 1], [1, 2], [0, 2]]) if cfg["upolys2"][k] else None) for k in ukeys}
+    for k in ukeys:
+        if cfg["obs"][k] is not None and cfg["oslice"][k]:
+            w = cfg["oslice"][k][1] - cfg["oslice"][k][0]
+            cfg["obs"][k]["vals"] = [[float(rng.randint(-2, 2)) for _ in range(w)] for _ in range(n)]
     if kind == "ode":
         cfg["ic"] = {k: (dy(rng), float(rng.randint(-2, 2))) for k in ukeys}
     else:
@@ -48,7 +55,9 @@ def build(cfg):
     from jinns.data._Batchs import ODEBatch, PDEStatioBatch, PDENonStatioBatch
     kind = cfg["kind"]
     eq_type = {"ode": "ODE", "statio": "statio_PDE", "nonstatio": "nonstatio_PDE"}[kind]
-    us = {k: mk([cfg["upolys"][k]], eq_type) for k in cfg["ukeys"]}
+    up2 = cfg.get("upolys2") or {}
+    us = {k: mk([cfg["upolys"][k]] + ([up2[k]] if up2.get(k) else []), eq_type) for k in cfg["ukeys"]}
+    osl = {k: (jnp.s_[v[0]:v[1]] if v else jnp.s_[...]) for k, v in (cfg.get("oslice") or {k: None for k in cfg["ukeys"]}).items()}
     PD = ParamsDict(nn_params={k: u.init_params() for k, u in us.items()}, eq_params={"junk": jnp.array(1.0)})
     base = {"ode": jinns.loss.ODE, "statio": jinns.loss.PDEStatio, "nonstatio": jinns.loss.PDENonStatio}[kind]
 
@@ -57,34 +66,34 @@ def build(cfg):
         if kind == "ode":
             class E(base):
                 def equation(self, t, u_dict, params_dict):
-                    return sum(c * u_dict[k](t, params_dict.extract_params(k)) for k, c in coef.items()) + poly_jax(q, jnp.atleast_1d(t))
+                    return sum(c * u_dict[k](t, params_dict.extract_params(k))[0:1] for k, c in coef.items()) + poly_jax(q, jnp.atleast_1d(t))
         elif kind == "statio":
             class E(base):
                 def equation(self, x, u_dict, params_dict):
-                    return sum(c * u_dict[k](x, params_dict.extract_params(k)) for k, c in coef.items()) + poly_jax(q, x)
+                    return sum(c * u_dict[k](x, params_dict.extract_params(k))[0:1] for k, c in coef.items()) + poly_jax(q, x)
         else:
             class E(base):
                 def equation(self, t, x, u_dict, params_dict):
-                    return sum(c * u_dict[k](t, x, params_dict.extract_params(k)) for k, c in coef.items()) + poly_jax(q, jnp.concatenate([t, x]))
+                    return sum(c * u_dict[k](t, x, params_dict.extract_params(k))[0:1] for k, c in coef.items()) + poly_jax(q, jnp.concatenate([t, x]))
         return E()
     dl = {e: mkeq(s) for e, s in cfg["eqs"].items()}
 
     def W(spec):
         return {"scalar": spec[1], "dict": spec[1], "none": None}[spec[0]]
-    obs = {k: (None if o is None else {"pinn_in": jnp.array(o["inputs"]), "val": jnp.array(o["vals"])[:, None], "eq_params": {}}) for k, o in cfg["obs"].items()}
+    obs = {k: (None if o is None else {"pinn_in": jnp.array(o["inputs"]), "val": (jnp.array(o["vals"]) if isinstance(o["vals"][0], list) else jnp.array(o["vals"])[:, None]), "eq_params": {}}) for k, o in cfg["obs"].items()}
     if all(v is None for v in obs.values()):
         obs = None
     if kind == "ode":
         lw = jinns.loss.LossWeightsODEDict(dyn_loss=W(cfg["w"]["dyn_loss"]), initial_condition=W(cfg["w"]["initial_condition"]), observations=W(cfg["w"]["observations"]))
         ic = {k: (t0, jnp.array([u0])) for k, (t0, u0) in cfg["ic"].items()}
-        L = jinns.loss.SystemLossODE(u_dict=us, dynamic_loss_dict=dl, loss_weights=lw, initial_condition_dict=ic, params_dict=PD)
+        L = jinns.loss.SystemLossODE(u_dict=us, dynamic_loss_dict=dl, loss_weights=lw, initial_condition_dict=ic, params_dict=PD, obs_slice_dict=osl)
         batch = ODEBatch(temporal_batch=jnp.array(cfg["pts"])[:, 0], obs_batch_dict=obs)
-        singles = {k: jinns.loss.LossODE(u=us[k], dynamic_loss=None, initial_condition=ic[k], params=PD.extract_params(k)) for k in us}
+        singles = {k: jinns.loss.LossODE(u=us[k], dynamic_loss=None, initial_condition=ic[k], params=PD.extract_params(k), obs_slice=osl[k]) for k in us}
     else:
         lw = jinns.loss.LossWeightsPDEDict(dyn_loss=W(cfg["w"]["dyn_loss"]), norm_loss=W(cfg["w"]["norm_loss"]), boundary_loss=W(cfg["w"]["boundary_loss"]),
                                            observations=W(cfg["w"]["observations"]), initial_condition=W(cfg["w"]["initial_condition"]))
-        kw = dict(norm_samples_dict={k: jnp.array(v) for k, v in cfg["norm"].items()}, norm_int_length_dict={k: 2.0 for k in us})
-        skw = {k: dict(norm_samples=jnp.array(cfg["norm"][k]), norm_int_length=2.0) for k in us}
+        kw = dict(norm_samples_dict={k: jnp.array(v) for k, v in cfg["norm"].items()}, norm_int_length_dict={k: 2.0 for k in us}, obs_slice_dict=osl)
+        skw = {k: dict(norm_samples=jnp.array(cfg["norm"][k]), norm_int_length=2.0, obs_slice=osl[k]) for k in us}
         if kind == "nonstatio":
             icf = {k: (lambda p: (lambda x: poly_jax(p, x)))(cfg["icp"][k]) for k in us}
             kw["initial_condition_fun_dict"] = icf
@@ -132,7 +141,7 @@ def case_term(cid, cfg, terms, sing):
 
 def jsonable(c):
     pj = lambda p: [[list(k), v] for k, v in sorted(p.items())]
-    out = dict(c, upolys={k: pj(p) for k, p in c["upolys"].items()}, eqs={e: dict(coef=s["coef"], q=pj(s["q"])) for e, s in c["eqs"].items()})
+    out = dict(c, upolys={k: pj(p) for k, p in c["upolys"].items()}, upolys2={k: (pj(p) if p else None) for k, p in (c.get("upolys2") or {}).items()}, eqs={e: dict(coef=s["coef"], q=pj(s["q"])) for e, s in c["eqs"].items()})
     if "icp" in c:
         out["icp"] = {k: pj(p) for k, p in c["icp"].items()}
     return out
@@ -140,7 +149,7 @@ def jsonable(c):
 
 def unjson(c):
     pu = lambda p: {tuple(k): v for k, v in p}
-    out = dict(c, upolys={k: pu(p) for k, p in c["upolys"].items()}, eqs={e: dict(coef=s["coef"], q=pu(s["q"])) for e, s in c["eqs"].items()},
+    out = dict(c, upolys={k: pu(p) for k, p in c["upolys"].items()}, upolys2={k: (pu(p) if p else None) for k, p in (c.get("upolys2") or {}).items()}, eqs={e: dict(coef=s["coef"], q=pu(s["q"])) for e, s in c["eqs"].items()},
                w={t: tuple(v) for t, v in c["w"].items()})
     if "icp" in c:
         out["icp"] = {k: pu(p) for k, p in c["icp"].items()}
@@ -174,7 +183,7 @@ def generate(tier, seed, casedir, variant):
             samples.append(dict(jsonable(cfg), returned=terms))
     write_cases(casedir, "C13", "R_C13", variant, cases, chunk=100)
     return dict(meta=meta, oracle_violations=viol, evaluations=len(cases), distinct_nontrivial=len(nontrivial), samples=samples, distribution=dist,
-                rule="random systems (ODE / stationary / non-stationary) with 1..3 equations and 1..3 unknowns (counts independent), residuals linear in the unknowns plus a polynomial that is not symmetric in (t, x), scalar / per-key dictionary / missing weights for every field, initial conditions, normalisation samples and observations per unknown (some unknowns without observations); non-trivial = non-zero dynamic term",
+                rule="random systems (ODE / stationary / non-stationary) with 1..3 equations and 1..3 unknowns (counts independent), residuals linear in the unknowns plus a polynomial that is not symmetric in (t, x), scalar / per-key dictionary / missing weights for every field, initial conditions, normalisation samples and observations per unknown (some unknowns without observations; some with a second output channel and an observation slice of their own); non-trivial = non-zero dynamic term",
                 oracle_checks=len(cases))
 
 
